@@ -230,6 +230,47 @@ def region_walk(view, decide, start=0, cut_edges=()):
     return seen
 
 
+def consistent_reach(view, cut_edges=(), start=0):
+    """Reachability in which a bool temporary set from constants (`matches!(x, V)`, `let ok = if .. {true} else {false}`)
+    keeps its value: a switch on such a local follows only the edge of the one constant its reachable definitions
+    assign. Iterated to a fixed point. Returns (reachable blocks, cut edges)."""
+    cut = set(cut_edges)
+    conds = list(switch_conds(view))
+    for _ in range(6):
+        reach = view.reachable(start, cut_edges=cut)
+        changed = False
+        for b, c, _e in conds:
+            if b not in reach or c.kind not in ("place", "const") or getattr(c, "pl", None) is None or c.pl["p"]:
+                continue
+            l = c.pl["l"]
+            ds = view.defs().get(l, [])
+            if not ds or not all(d[0] == "s" and d[3]["rv"]["r"] == "use" and d[3]["rv"]["op"]["k"] == "const" for d in ds):
+                continue
+            vals = {str(d[3]["rv"]["op"].get("val")) in ("1", "true") for d in ds if d[1] in reach}
+            if len(vals) != 1:
+                continue
+            truth = next(iter(vals)) != bool(getattr(c, "neg", False))
+            t = view.blocks[b]["t"]
+            if t["k"] != "switch":
+                continue
+            # switchInt(bool): target of value 0 is the false edge, everything else the true edge
+            false_t = [tgt for val, tgt in t["targets"] if str(val) == "0"]
+            keep = set()
+            for (_, tgt) in view.edges_from(b):
+                is_false = tgt in false_t
+                # `neg` is already folded into `truth` relative to the raw local value: undo it to pick the raw edge
+                raw = next(iter(vals))
+                if is_false != raw:
+                    keep.add(tgt)
+            for (_, tgt) in view.edges_from(b):
+                if tgt not in keep and (b, tgt) not in cut:
+                    cut.add((b, tgt))
+                    changed = True
+        if not changed:
+            return reach, cut
+    return view.reachable(start, cut_edges=cut), cut
+
+
 def truth_table(view, classify, targets, pairs=None):
     """classify(cond) -> (pair_id, orientation) with orientation 'fwd' if the comparison is `X op K`
     and 'rev' if it is `K op X`; or None for untracked comparisons.
